@@ -297,7 +297,7 @@ def check_helpers(ctx, tu):
                 xs = [x] + f.descendants(x)
                 ids = {f.decl(d)['id'] for d in xs if f.nodes[d]['cls'] == 'DeclRefExpr' and f.decl(d)['kind'] == 'parm'}
                 srcs.append(ids == {node_p})
-            cbp = path(f, args[-1]) if args else ()
+            cbp = path(f, f.value_source(args[-1])) if args else ()
             ok = all(srcs) and len(args) in (1, 2) and cbp[-1:] == ('.callback',)
             rets = f.return_nodes()
             ok = ok and len(rets) == 1 and f.strip_all_casts(f.kids(rets[0])[0]) == calls[0]
